@@ -104,7 +104,12 @@ func main() {
 		}
 		env := &explore.Env{PropID: rec.Property, Tier: rec.Tier, Root: *root, Self: self}
 		if p.Replay != nil {
-			os.Exit(p.Replay(env, rec.Violation))
+			if rc := p.Replay(env, rec.Violation); rc >= 0 { // a negative result asks for the default replay below
+				if rc == 1 {
+					fmt.Printf("VIOLATION property=%s replay=%s\n", rec.Property, *rfile)
+				}
+				os.Exit(rc)
+			}
 		}
 		if p.Pre != nil {
 			env.Workers = runtime.NumCPU()
